@@ -860,3 +860,25 @@ val scan : lstate -> z list -> (lkind * nat) * lstate
 val lex_all : nat -> lstate -> z list -> tok list
 
 val lex : z list -> tok list
+
+type token = z list
+
+val tok_eqb : token -> token -> bool
+
+val toks_eqb : token list -> token list -> bool
+
+val mem : token list -> token -> bool
+
+val keep : token list -> token list -> token list
+
+val diff_ok : token list -> token list -> token list -> bool
+
+val closer : token -> token option
+
+val is_closer : token -> bool
+
+val balanced_from : token list -> token list -> bool
+
+val balanced : token list -> bool
+
+val c04_ok : token list -> token list -> token list -> bool
